@@ -1531,7 +1531,7 @@ def check(rep: Report, tier: str, seed: int) -> None:
     lap("lean_bridge_wait")
     batch.flush(rep)
     lap("model_driver")
-    if rep.broken and not rep.failing:
+    if rep.broken and not rep.unknown_failing():
         search(rep, seed, 600 if quick else 6000)
 
 
@@ -1570,7 +1570,7 @@ def search(rep: Report, seed: int, n: int) -> None:
         for msg, upto in res["fails"]:
             rep.fail(msg, {"kind": "history", **_case_ser(case), "upto": upto})
         # invariant directly on the real tensors, for histories that start from a true state
-        if not rep.failing and case["init"] in ("fresh", "make"):
+        if not rep.unknown_failing() and case["init"] in ("fresh", "make"):
             for idx, st in enumerate(res["steps"]):
                 if st["raised"] or st["centre"] is None:
                     continue
